@@ -163,7 +163,7 @@ func unreadableClass(src map[string]any, migrated []byte, srcVersion string) str
 				for _, a := range acts {
 					am, _ := a.(map[string]any)
 					if str(am["type"]) == "set_run_result" && str(am["name"]) == "" {
-						return "13.6-name-blank-after-truncation:set_run_result"
+						return "13.6-name-truncated-to-empty"
 					}
 				}
 			}
@@ -426,12 +426,82 @@ func checkLegacyMigrated(res *hx.Result, src, migrated []byte, ld *ldef, fail fu
 
 // ---- rejection clause ---------------------------------------------------------------------------------------------
 
+// panicClass: class of "panic instead of an error", computed from the panic site and the input.  The two sites that
+// were repaired in /repo keep the class of their `fixed:` line, so that a revert is reported under that name.
+func panicClass(site string, data []byte) string {
+	switch site {
+	case "flows/routers.(*SwitchRouter).Validate":
+		if hasNullCase(data) {
+			return "panic:read:switch-router-null-case"
+		}
+	case "flows/definition/legacy.migrateRuleSet":
+		if legacyRulesetLacksFlowOrOperand(data) {
+			return "panic:legacy:ruleset-missing-flow-or-operand"
+		}
+	}
+	return "panic:" + site
+}
+
+// some switch router of the document has a null among its cases
+func hasNullCase(data []byte) bool {
+	found := false
+	var walk func(v any)
+	walk = func(v any) {
+		switch t := v.(type) {
+		case map[string]any:
+			if cs, ok := t["cases"].([]any); ok {
+				for _, c := range cs {
+					if c == nil {
+						found = true
+					}
+				}
+			}
+			for _, x := range t {
+				walk(x)
+			}
+		case []any:
+			for _, x := range t {
+				walk(x)
+			}
+		}
+	}
+	if v, err := decodeGeneric(data); err == nil {
+		walk(v)
+	}
+	return found
+}
+
+// some legacy rule set is a subflow without config.flow or a form_field without operand
+func legacyRulesetLacksFlowOrOperand(data []byte) bool {
+	v, err := decodeGeneric(data)
+	if err != nil {
+		return false
+	}
+	f, _ := v.(map[string]any)
+	rs, _ := f["rule_sets"].([]any)
+	for _, r := range rs {
+		m, _ := r.(map[string]any)
+		switch str(m["ruleset_type"]) {
+		case "subflow":
+			cfg, _ := m["config"].(map[string]any)
+			if cfg == nil || cfg["flow"] == nil {
+				return true
+			}
+		case "form_field":
+			if str(m["operand"]) == "" {
+				return true
+			}
+		}
+	}
+	return false
+}
+
 func checkRejection(res *hx.Result, stream string, data []byte, how string) outcome {
 	res.OracleChecks++
 	o := runRejection(data)
 	switch {
 	case o.Panic != "":
-		res.Fail("panic:"+o.Panic, failInput(stream, data, map[string]any{"mutation": how}), "panic instead of an error: "+o.PanicMsg)
+		res.Fail(panicClass(o.Panic, data), failInput(stream, data, map[string]any{"mutation": how}), "panic instead of an error: "+o.PanicMsg)
 		res.Dist("malformed_outcome=panic")
 	case o.ReadOK:
 		res.Dist("malformed_outcome=accepted")
